@@ -14,13 +14,10 @@ model has to be re-read against the source.
 namespace Rangers.Props.C17B
 open Rangers Rangers.Pool Rangers.Generated
 
-
-
-
 /-- What `Model/Pool.lean` was transcribed from: per function the state-relevant calls in source order. -/
 def expectedCalls : List (String × List String) := [
   ("Transactions.Less", ["common.IsProposal023", "bytes.Compare", "panic", "Cmp", "common.FromHex", "common.FromHex", "Cmp", "common.IsProposal021", "common.FromHex", "common.FromHex", "Cmp", "common.IsProposal016", "Cmp"]),
-  ("TxPool.AddTransaction", ["add", "refreshGateNonce"]),
+  ("TxPool.AddTransaction", ["lock.Lock", "lock.Unlock", "add", "refreshGateNonce"]),
   ("TxPool.Clear", ["db.NewDatabase", "batch.Reset", "newSimpleContainer"]),
   ("TxPool.Close", ["executed.Close", "received.Close"]),
   ("TxPool.GetExecuted", ["executed.Get", "json.Unmarshal"]),
@@ -30,10 +27,10 @@ def expectedCalls : List (String × List String) := [
   ("TxPool.GetTransactionStatus", ["GetExecuted"]),
   ("TxPool.IsExisted", ["isTransactionExisted"]),
   ("TxPool.IsFull", ["received.isFull"]),
-  ("TxPool.MarkExecuted", ["findTxInList", "types.MarshalTransaction", "json.Marshal", "batch.Put", "batch.ValueSize", "batch.Write", "batch.Reset", "refreshGateNonce", "batch.ValueSize", "batch.Write", "batch.Reset", "evictedTxs.Add", "remove"]),
+  ("TxPool.MarkExecuted", ["lock.Lock", "lock.Unlock", "findTxInList", "types.MarshalTransaction", "json.Marshal", "batch.Put", "batch.ValueSize", "batch.Write", "batch.Reset", "refreshGateNonce", "batch.ValueSize", "batch.Write", "batch.Reset", "evictedTxs.Add", "remove"]),
   ("TxPool.PackForCast", ["received.asSlice", "common.IsProposal018", "checkNonce"]),
   ("TxPool.TxNum", ["received.Len"]),
-  ("TxPool.UnMarkExecuted", ["evictedTxs.Remove", "executed.Delete", "add"]),
+  ("TxPool.UnMarkExecuted", ["lock.Lock", "lock.Unlock", "evictedTxs.Remove", "executed.Delete", "add"]),
   ("TxPool.add", ["isTransactionExisted", "received.push", "received.Len"]),
   ("TxPool.checkNonce", ["sort.Sort", "GetNonce", "common.HexToAddress"]),
   ("TxPool.isTransactionExisted", ["received.contains", "executed.Has"]),
